@@ -163,7 +163,7 @@ func (n *ambassador) callback(tx dag.Transaction, payload []byte) error {
 
 	// Unmarshal the next/new proposed version of the DID Document
 	var nextDIDDocument did.Document
-	if err := json.Unmarshal(payload, &nextDIDDocument); err != nil {
+	if err := unmarshalDocument(payload, &nextDIDDocument); err != nil {
 		return fmt.Errorf("unable to unmarshal DID document from network payload: %w", err)
 	}
 
@@ -393,4 +393,14 @@ func (n ambassador) findKeyByThumbprint(thumbPrint []byte, didDocumentAuthKeys [
 		}
 	}
 	return documentKey, nil
+}
+
+// unmarshalDocument guards against panics in the DID document parser on malformed network payloads, e.g. a null verificationMethod entry.
+func unmarshalDocument(data []byte, document *did.Document) (err error) {
+	defer func() {
+		if r := recover(); r != nil {
+			err = fmt.Errorf("malformed DID document: %v", r)
+		}
+	}()
+	return json.Unmarshal(data, document)
 }
